@@ -20,6 +20,8 @@ def run(cx):
     cx.rule("C15.R1", "K2", "SubflowPackage::execute: auto-complete off before start; inputs = fill_inputs(options) + the two parent-link keys; start's error is propagated")
     cx.rule("C15.R2", "K5", "return_to_act: Aborted->Abort, Skipped->Skip, Error->Error (with the child's code and message), otherwise Next; options = child outputs")
     cx.rule("C15.R3", "K1", "the return is made exactly on the terminal edge of on_proc, before the child is removed; an act with auto-complete off is not completed by Act::next")
+    cx.rule("C15.R5", "K6", "a return that the calling act refuses is not just logged: on the Err edge of do_action the calling act (looked up by the action's pid / tid, still open) is failed with that error and the failure is emitted, so the act never stays open behind a finished child")
+    r5_refusal(cx)
     cx.rule("C15.R4", "K1", "the returned action is not refused for its content: in the Next / Abort / Skip / Error arms Task::update refuses only for the state of a task, a missing parent, or the absence of the error-code key (which the return always sets)")
     r4_accepts(cx)
     m = cx.m
@@ -222,3 +224,54 @@ def r4_accepts(cx):
 def _nth(f, b):
     bs = [x for x, k in f.exit_defs() if k == "ERR_NEW"]
     return "#%d" % bs.index(b)
+
+
+
+def r5_refusal(cx):
+    m = cx.m
+    pa = Prov(m, "alias")
+    f = m.one(r"^acts::scheduler::runtime::Runtime::return_to_act$")
+    clos = [g for g in m.fns.values() if g.q.startswith(f.q + "::{closure")]
+    site = None
+    for g in clos:
+        for c in g.calls():
+            if c.q.endswith("Runtime::do_action"):
+                site = (g, c)
+    if site is None:
+        # maybe called directly
+        for c in f.calls():
+            if c.q.endswith("Runtime::do_action"):
+                site = (f, c)
+    if site is None:
+        raise Anchor("return_to_act: the do_action call was not found")
+    g, c = site
+    se = [x for x in g.calls() if x.q == T.Q_SET_ERR]
+    em = [x for x in g.calls() if x.q.endswith("Context::emit_error")]
+    ok_edge = ok_task = ok_open = ok_emit = False
+    if se and em:
+        x = se[0]
+        gs = guards_of(m, g, x.b, mode="alias")
+        for gd in gs:
+            r = gd.root
+            if r[0] == "discr" and r[1][:3] == ("call", c.q, c.b) and discr_variants(m, gd) == {"Err"}:
+                ok_edge = True
+            if r[0] == "call" and T.STATE_PRED.match(r[1]) and T.STATE_PRED.match(r[1]).group(1) == "is_completed" and gd.truth is False:
+                who = pa.root(g, Call(g, r[2]).args[0])
+                if who[0] == "call" and who[1] == T.Q_STATE and pa.root(g, Call(g, who[2]).args[0]) == pa.root(g, x.args[0]):
+                    ok_open = True
+        # the task is proc(action.pid).task(action.tid)
+        t = pa.root(g, x.args[0])
+        if t[0] == "call" and t[1].endswith("Process::task"):
+            tc = Call(g, t[2])
+            tid = pa.root(g, tc.args[1])
+            pr = pa.root(g, tc.args[0])
+            pid = pa.root(g, Call(g, pr[2]).args[1]) if pr[0] == "call" and pr[1].endswith("Cache::proc") else None
+            act = pa.root(g, c.args[1])
+            ok_task = pid is not None and tid[:3] == act[:3] and pid[:3] == act[:3] and tuple(y for y in tid[3] if y != "*")[-1:] == ("tid",) and tuple(y for y in pid[3] if y != "*")[-1:] == ("pid",)
+        # the error stored is the refusal, and the emit follows on the same context's task
+        ctxr = pa.root(g, em[0].args[0])
+        ok_emit = g.dominates(x.b, em[0].b) and ctxr[0] == "call" and ctxr[1].endswith("Task::create_context") and pa.root(g, Call(g, ctxr[2]).args[0]) == t
+    cx.ob("C15.R5", "refusal:fails-the-act", ok_edge and ok_task and ok_open and ok_emit,
+          "when do_action refuses the return, the calling act (action.pid / action.tid, not yet terminal) gets the refusal as its error and is emitted as failed%s" % (
+              "" if (ok_edge and ok_task and ok_open and ok_emit) else " - not found (Err edge: %s, the act of the action: %s, still open: %s, set_err then emit_error on it: %s): a refused return leaves the calling act open for ever" % (ok_edge, ok_task, ok_open, ok_emit)), c.loc)
+    cx.floor("C15.R5", 1)
